@@ -222,7 +222,8 @@ def hook(rd, e, st, ctx):
             return out
     if k == 'MCall' and not e.get('inrepo'):
         name = e.get('m')
-        if name in ('transpose', 'col', 'row', 'head', 'norm', 'squaredNorm', 'dot', 'cross', 'determinant', 'trace', 'x', 'y', 'z') or name in ('array', 'matrix', 'eval'):
+        if name in ('transpose', 'col', 'row', 'head', 'norm', 'squaredNorm', 'dot', 'cross', 'determinant', 'trace', 'x', 'y', 'z', 'maxCoeff', 'minCoeff', 'sum', 'prod', 'mean', 'cwiseAbs', 'abs') \
+                or name in ('array', 'matrix', 'eval'):
             out = []
             for (ov, s2) in rd.ev(e['obj'], st, ctx):
                 if not isinstance(ov, sp.MatrixBase):
@@ -329,6 +330,18 @@ def _method(name, M, args):
         return M.trace()
     if name in ('x', 'y', 'z'):
         return M[{'x': 0, 'y': 1, 'z': 2}[name], 0]
+    if name == 'maxCoeff' and not args:
+        return sp.Max(*list(M))
+    if name == 'minCoeff' and not args:
+        return sp.Min(*list(M))
+    if name == 'sum' and not args:
+        return sum(list(M))
+    if name == 'prod' and not args:
+        return sp.Mul(*list(M))
+    if name == 'mean' and not args:
+        return sum(list(M)) / len(list(M))
+    if name in ('cwiseAbs', 'abs') and not args:
+        return sp.ImmutableMatrix(M.applyfunc(sp.Abs))
     return NotImplemented
 
 
